@@ -748,11 +748,19 @@ def r8_paths_fit_their_buffers(repo=None):
     return r
 
 
+def r9_close_drops_the_last_reference(repo=None):
+    """'After close no file of the channel carries the temporary marker': the Python close() publishes the last file by deleting
+    the attribute that holds the extension's writer object; the destructor that closes and renames the file runs only if that
+    was the last reference.  The who-may-hold rule of C09.R6, claimed here for the publication at close."""
+    from . import c09
+    return c09.r6_capsule_has_one_owner(repo, rid="C02.R9")
+
+
 def rules(repo=None):
     return [lambda: r8_paths_fit_their_buffers(repo), lambda: r1_tmp_provenance(repo), lambda: r2_publish_after_close(repo),
             lambda: r3_no_writer_of_final(repo), lambda: r4_staged_creation(repo),
             lambda: r5_readers_ignore_tmp(repo), lambda: r6_identity_stable_until_published(repo),
-            lambda: r7_failed_create_not_published(repo)]
+            lambda: r7_failed_create_not_published(repo), lambda: r9_close_drops_the_last_reference(repo)]
 
 
 EXPLANATION = (
@@ -766,7 +774,9 @@ EXPLANATION = (
     'it too or does not leave the remembered name pointing at that file, so a tmp file this session does not own is never'
     ' renamed. R1 also accepts the remove of what a failed exclusive create of the same call left behind when an access()'
     ' probe taken before the create says the name was free. R7 also: a refusal made before any store to the identity '
-    'fields is harmless. R8: in the constructor a comparison of strlen(directory) with the size of the path buffers, '
+    'fields is harmless. R9 (= C09.R6): the extension writer object is read only as a direct argument of an extension call, tested or '
+    'deleted - a second reference in a Python local alive across a call or raise keeps the destructor (which publishes the last file) '
+    'from running at close(). R8: in the constructor a comparison of strlen(directory) with the size of the path buffers, '
     'whose failing side returns NULL, dominates the store of the directory (the paths R1 reasons about are assembled with'
     ' strcpy / strcat in fixed buffers). Decides the protocol shape on all paths, NOT that HDF5 flushed every byte (see '
     'C10) nor page-cache loss.')
